@@ -31,3 +31,4 @@ def run(chk, program, tier):
     K.close_does(chk, program)
     K.close_order(chk, program)
     K.connect_shuts_late_link(chk, program)
+    K.close_every_path(chk, program)
